@@ -153,6 +153,13 @@ func (s *Store) Delete(bid bpv7.BundleID) error {
 		log.WithFields(log.Fields{
 			"bundle": bid,
 		}).Info("Store deletes BundleItem")
+		verifPoint("delete:before-index", bi.Id)
+
+		// Remove the BundleItem first. An interruption afterwards leaves orphaned files behind, but never a
+		// BundleItem whose files are missing.
+		if err := s.bh.Delete(bi.Id, BundleItem{}); err != nil {
+			return err
+		}
 
 		for _, bp := range bi.Parts {
 			if err := bp.deleteBundle(); err != nil {
@@ -164,9 +171,6 @@ func (s *Store) Delete(bid bpv7.BundleID) error {
 			}
 			verifPoint("delete:part-removed", bi.Id)
 		}
-		verifPoint("delete:before-index", bi.Id)
-
-		return s.bh.Delete(bi.Id, BundleItem{})
 	}
 
 	return nil
